@@ -42,7 +42,7 @@ class DictSym(E.Val):
         self.name, self.taint, self.ghost = name, taint, None
         self.n = z3.Int('len_' + name)
         self.keyf = z3.Function('key_' + name, I, V)
-        self.valf = z3.Function('val_' + name, V, R if val == 'real' else V)
+        self.valf = z3.Function('val_' + name, V, R if val == 'real' else I if val == 'int' else V)
         self.val = val
         self.t = z3.Const('dict_' + name, V)
 
@@ -50,11 +50,29 @@ class DictSym(E.Val):
         kf = self.keyf
         return Arr(self.n, lambda e, s, i: E.Obj(kf(i)), taint=self.taint, name='keys_' + self.name)
 
-    def get(self, eng, k):
+    def get(self, eng, k, st=None):
         kv = eng.to_V(k)
+        if hasattr(self, 'zip_keys') and st is not None:
+            keys, vals = self.zip_keys, self.zip_vals
+            w = self.zip_last(eng.arr_to_V(keys), kv)
+            st.assume(eng.membership(st, keys, k))                    # KeyError ends the path
+            st.assume(z3.And(w >= 0, w < keys.n, eng.val_eq(st, keys.at(eng, st, w), k)))
+            eng.add_qfact(st, lambda e, s, j: z3.Implies(z3.And(j > w, j < keys.n), z3.Not(e.val_eq(s, keys.at(e, s, j), k))), name='zipdict-last')
+            return vals.at(eng, st, w)
         if self.val == 'real':
             return E.Num(self.valf(kv), npy=True, taint=E.t_or(self.taint, k.taint))
+        if self.val == 'int':
+            return E.Num(self.valf(kv), taint=E.t_or(self.taint, k.taint))
         return E.Obj(self.valf(kv), taint=E.t_or(self.taint, k.taint))
+
+    def has(self, eng, st, k):
+        return eng.uf('has_key', V, V, B)(self.t, eng.to_V(k))
+
+
+class SetV(E.Val):
+    """set(seq): only membership-based comparisons are modelled."""
+    def __init__(self, arr):
+        self.arr, self.taint, self.ghost = arr, arr.taint, None
 
 
 class QFact:
@@ -97,7 +115,7 @@ class ArrayTheory:
         """Int-sorted terms worth instantiating at: arguments of uninterpreted functions and Int constants."""
         seen, out = set(), []
         def visit(t):
-            if t.get_id() in seen:
+            if t.get_id() in seen or len(seen) > 6000:
                 return
             seen.add(t.get_id())
             if z3.is_app(t):
@@ -121,37 +139,164 @@ class ArrayTheory:
                 uniq.append(t)
         return uniq[:limit]
 
-    def instantiate(self, st, goal, rounds=2):
-        """Ground instances of the state's quantified facts at the index terms of path and goal."""
-        qf = getattr(st, 'qfacts', [])
+    def qfact_triggers(self, st, q):
+        """E-matching patterns of a quantified fact: (function name, argument position, offset) for every
+        uninterpreted-function argument of the form k or k + c in one probe instance."""
+        if getattr(q, 'triggers', None) is not None:
+            return q.triggers
+        kp = self.fresh('probe', I)
+        s2 = st.fork()
+        trig = set()
+        try:
+            f = q.fn(self, s2, kp)
+            forms = [f] + s2.path[len(st.path):]
+        except E.Unsupported:
+            forms = []
+        seen = set()
+        def offset(a):
+            if z3.eq(a, kp):
+                return 0
+            if z3.is_add(a) and a.num_args() == 2:
+                x, y = a.arg(0), a.arg(1)
+                if z3.eq(x, kp) and z3.is_int_value(y):
+                    return y.as_long()
+                if z3.eq(y, kp) and z3.is_int_value(x):
+                    return x.as_long()
+            if z3.is_sub(a) and a.num_args() == 2 and z3.eq(a.arg(0), kp) and z3.is_int_value(a.arg(1)):
+                return -a.arg(1).as_long()
+            return None
+        def visit(t):
+            if t.get_id() in seen or len(seen) > 4000:
+                return
+            seen.add(t.get_id())
+            if z3.is_app(t):
+                if t.decl().kind() == z3.Z3_OP_UNINTERPRETED and t.num_args() > 0:
+                    for pos, a_ in enumerate(t.children()):
+                        if a_.sort() == I:
+                            c = offset(a_)
+                            if c is not None:
+                                trig.add((t.decl().name(), pos, c))
+                for c_ in t.children():
+                    visit(c_)
+        for f in forms:
+            visit(f)
+        q.triggers = trig
+        q.extra_q = list(s2.qfacts[len(st.qfacts):])
+        return trig
+
+    def instantiate(self, st, goal, rounds=3):
+        """Ground instances of the state's quantified facts, chosen by E-matching: a fact is instantiated at the terms that
+        occur (in the goal, the path or earlier instances) as arguments of the functions its body applies to the bound
+        variable.  Facts registered while instantiating (membership / first-index axioms of new terms) join the working set."""
+        qf = list(getattr(st, 'qfacts', []))
         if not qf:
             return []
         facts = []
         done = set()
-        exprs = list(st.path) + [goal]
-        for _ in range(rounds):
-            terms = self.index_terms(exprs + facts, limit=16) + [z3.IntVal(0)]
+        work = st.fork()
+        consts = None
+        occ = {}            # function name -> list of argument lists (one traversal per formula)
+        seen = set()
+        def index(exprs):
+            stack = list(exprs)
+            while stack:
+                t = stack.pop()
+                i_ = t.get_id()
+                if i_ in seen:
+                    continue
+                seen.add(i_)
+                if z3.is_app(t):
+                    n_ = t.num_args()
+                    if n_ > 0:
+                        d = t.decl()
+                        ch = t.children()
+                        if d.kind() == z3.Z3_OP_UNINTERPRETED:
+                            occ.setdefault(d.name(), []).append(ch)
+                        stack.extend(ch)
+                elif z3.is_quantifier(t):
+                    stack.append(t.body())
+        index([goal])
+        goal_ids = set(seen)          # sub-terms of the goal: instantiation terms from here are never cut off
+        index(list(work.path))
+        for rnd in range(rounds):
             new = []
-            for q in qf:
+            for q in list(qf):
+                trig = self.qfact_triggers(work, q)
+                terms, ids = [], set()
+                if trig:
+                    for name, pos, c in trig:
+                        for ch in occ.get(name, ()):
+                            if pos < len(ch) and ch[pos].sort() == I:
+                                k_ = z3.simplify(ch[pos] - c) if c else ch[pos]
+                                if k_.get_id() not in ids:
+                                    ids.add(k_.get_id())
+                                    terms.append(k_)
+                    # smallest terms first: nested witness terms (matching loops) come last and are cut off
+                    terms.sort(key=lambda t_: (t_.get_id() not in goal_ids, len(t_.sexpr())))
+                    terms = [t_ for t_ in terms if t_.get_id() in goal_ids] + \
+                            [t_ for t_ in terms if t_.get_id() not in goal_ids and len(t_.sexpr()) <= 160][:14]
+                else:
+                    if consts is None:
+                        consts = self.index_terms([goal] + list(work.path), limit=12) + [z3.IntVal(0)]
+                    terms = consts
                 for t in terms:
                     key = (id(q), t.get_id())
                     if key in done:
                         continue
                     done.add(key)
-                    s2 = st.fork()
+                    s2 = work.fork()
                     try:
                         inst = q.fn(self, s2, t)
                     except E.Unsupported:
                         continue
-                    side = s2.path[len(st.path):]
+                    side = s2.path[len(work.path):]
                     if q.marker is not None:
                         inst = z3.Implies(q.marker, inst)
                     new.extend(side)
                     new.append(inst)
+                    for q2 in s2.qfacts[len(work.qfacts):]:
+                        qf.append(q2)
+                        work.qfacts.append(q2)
+                    if '_fi_done' in s2.__dict__:
+                        work._fi_done = set(s2._fi_done)
+            # element lemmas at every x for which membership in one of their sequences is mentioned
+            el_done = done
+            for arrs, fn, nm in getattr(work, 'elem_lemmas', []):
+                for ch in occ.get('contains', ()):
+                    if len(ch) == 2 and ch[0].get_id() in arrs:
+                        key = (id(fn), ch[1].get_id())
+                        if key in el_done:
+                            continue
+                        el_done.add(key)
+                        new.append(fn(ch[1]))
             if not new:
                 break
             facts.extend(new)
+            index(new)
         return facts
+
+    def add_elem_lemma(self, st, arrs, fn, name=''):
+        """A lemma quantified over *elements* x (sort PyVal), instantiated at every x for which `x in a` is mentioned for one
+        of the given sequences.  Used for: membership in a concatenation, membership in equal sequences."""
+        st.elem_lemmas = list(getattr(st, 'elem_lemmas', [])) + [(set(self.arr_to_V(a).get_id() for a in arrs), fn, name)]
+
+    def seq_equal_term(self, st, a, b):
+        """a == b for sequences, as a defined Bool, together with the consequences the other spec functions need:
+        equal sequences have the same members and the same product (lemmas of the sequence theory)."""
+        eq = self.defined_bool(st, 'seq_eq', a.n, lambda e, s, k: e.val_eq(s, a.at(e, s, k), b.at(e, s, k)))
+        t = z3.And(a.n == b.n, eq)
+        cont = self.uf('contains', V, V, B)
+        av, bv = self.arr_to_V(a), self.arr_to_V(b)
+        self.members_axiom(st, a)
+        self.members_axiom(st, b)
+        self.add_elem_lemma(st, [a, b], lambda x: z3.Implies(t, cont(av, x) == cont(bv, x)), name='equal-sequences-same-members')
+        pa, pb = a.at(self, st, z3.IntVal(0)), b.at(self, st, z3.IntVal(0))
+        if isinstance(pa, E.Num) and isinstance(pb, E.Num):
+            f = self.uf('prod', V, I, R)
+            self.prodf(st, a, a.n)
+            self.prodf(st, b, b.n)
+            st.assume(z3.Implies(t, f(av, a.n) == f(bv, b.n)))
+        return t
 
     # ---- spec functions ---------------------------------------------------------------
     def spec_forall(self, st, lam, lo=None, hi=None):
@@ -160,8 +305,9 @@ class ArrayTheory:
             raise E.Unsupported('forall needs a lambda')
         var = lam.node.args.args[0].arg
         def body(eng, s, k):
-            s.env = dict(s.env)
-            s.env.update({kk: vv for kk, vv in lam.closure.env.items() if kk not in s.env})
+            # lexical scoping: the lambda sees the spec environment it was written in (callee parameters bound to the
+            # call's arguments, old() names ...), never the variables of whatever state it is instantiated in
+            s.env = dict(lam.closure.env)
             s.env[var] = E.Num(k)
             self._spec_mode = getattr(self, '_spec_mode', 0) + 1
             try:
@@ -196,9 +342,48 @@ class ArrayTheory:
     def arr_zip(self, st, arrs):
         n = arrs[0].n
         # zip truncates to the shortest; lengths are required equal by the contracts that use it
-        return Arr(n, lambda e, s, i: E.Tup([a.at(e, s, i) for a in arrs]), taint=E.t_or(*[a.taint for a in arrs]), name='zip')
+        out = Arr(n, lambda e, s, i: E.Tup([a.at(e, s, i) for a in arrs]), taint=E.t_or(*[a.taint for a in arrs]), name='zip')
+        out.zipped = list(arrs)
+        return out
+
+    def prodf(self, st, a, upto):
+        """spec function prod_{k<upto} a[k] with its defining equations instantiated at `upto`."""
+        f = self.uf('prod', V, I, R)
+        av = self.arr_to_V(a)
+        x = a.at(self, st, upto).real()
+        st.assume(z3.And(f(av, z3.IntVal(0)) == 1, f(av, upto + 1) == f(av, upto) * x))
+        if hasattr(a, 'concat_of'):
+            # lemma (assumed, induction on the second sequence): the product over a concatenation is the product of the products
+            l, r = a.concat_of
+            self.prodf(st, l, l.n)
+            self.prodf(st, r, r.n)
+            st.assume(f(av, l.n + r.n) == f(self.arr_to_V(l), l.n) * f(self.arr_to_V(r), r.n))
+        return E.Num(f(av, upto))
+
+    def zipdict(self, st, keys, vals):
+        """dict(zip(keys, vals)): lookup of x yields vals at the LAST position of x in keys (later pairs overwrite)."""
+        d = DictSym(self, 'zipdict!%d' % self.counter, val='int')
+        self.counter += 1
+        kv = self.arr_to_V(keys)
+        last = self.uf('last_index', V, V, I)
+        cont = self.uf('contains', V, V, B)
+        d.n = self.fresh('dictlen', I)
+        def get(eng, k, st_=None):
+            xv = eng.to_V(k)
+            w = last(kv, xv)
+            return w
+        d.zip_keys, d.zip_vals, d.zip_last = keys, vals, last
+        return d
 
     def arr_from_tup(self, t, np=False):
+        cached = t.__dict__.get('_as_arr')
+        if cached is not None and cached.np == np:
+            return cached
+        out = self._arr_from_tup(t, np)
+        t._as_arr = out
+        return out
+
+    def _arr_from_tup(self, t, np=False):
         items = t.items
         def at(e, s, i):
             if not items:
@@ -217,8 +402,15 @@ class ArrayTheory:
         if la and ra and not (l.np or r.np):
             if isinstance(op, ast.Add):      # sequence concatenation
                 n1 = l.n
-                return Arr(l.n + r.n, lambda e, s, i: e.ite(s, i < n1, l.at(e, s, i), r.at(e, s, i - n1)),
-                           taint=E.t_or(l.taint, r.taint), name='concat')
+                out = Arr(l.n + r.n, lambda e, s, i: e.ite(s, i < n1, l.at(e, s, i), r.at(e, s, i - n1)),
+                          taint=E.t_or(l.taint, r.taint), name='concat')
+                out.concat_of = (l, r)
+                cont = self.uf('contains', V, V, B)
+                ov, lv, rv = self.arr_to_V(out), self.arr_to_V(l), self.arr_to_V(r)
+                for x_ in (out, l, r):
+                    self.members_axiom(st, x_)
+                self.add_elem_lemma(st, [out, l, r], lambda x: cont(ov, x) == z3.Or(cont(lv, x), cont(rv, x)), name='membership-in-concatenation')
+                return out
             return NotImplemented
         other = r if la else l
         if not isinstance(other, (Arr, E.Num)):
@@ -311,8 +503,10 @@ class ArrayTheory:
         return E.Bound(o, name, taint=o.taint)
 
     def arr_getitem(self, st, o, k, node):
+        if isinstance(o, E.Tup) and o.items and isinstance(k, E.Num) and not z3.is_int_value(k.t) and k.is_int:
+            o = self.arr_from_tup(o)
         if isinstance(o, DictSym):
-            return o.get(self, k)
+            return o.get(self, k, st)
         if isinstance(o, Arr) and isinstance(k, E.Num):
             i = int_term(k)
             if z3.is_int_value(i) and i.as_long() < 0:
@@ -325,8 +519,73 @@ class ArrayTheory:
             return E.Obj(self.fresh('fancy', V), cls='ndarray', taint=E.t_or(o.taint, k.taint))
         return NotImplemented
 
+    # ---- membership, first index, set and sequence comparisons -----------------------------
+    def first_index(self, st, a, x):
+        """Canonical first position of x in a (tuple.index): an uninterpreted function of (a, x) with its defining
+        facts stated whenever it is used:  x in a  ->  0 <= w < len(a), a[w] == x, and a[k] != x for k < w."""
+        av, xv = self.arr_to_V(a), self.to_V(x)
+        w = self.uf('first_index', V, V, I)(av, xv)
+        mem = self.uf('contains', V, V, B)(av, xv)
+        self.members_axiom(st, a)
+        key = ('fi', av.get_id(), xv.get_id())
+        done = st.__dict__.setdefault('_fi_done', set())
+        if key not in done:
+            st._fi_done = set(done) | {key}
+            st.assume(z3.Implies(mem, z3.And(w >= 0, w < a.n, self.val_eq(st, a.at(self, st, w), x))))
+            self.add_qfact(st, lambda e, s, k: z3.Implies(z3.And(mem, k >= 0, k < w), z3.Not(e.val_eq(s, a.at(e, s, k), x))),
+                           name='first-index-minimal')
+        return w, mem
+
+    def membership(self, st, a, x):
+        """x in a  for a symbolic sequence:  a[k] in a for every k (quantified fact), and the witness above."""
+        w, mem = self.first_index(st, a, x)
+        return mem
+
+    def members_axiom(self, st, a):
+        av = self.arr_to_V(a)
+        key = ('mem', av.get_id())
+        done = st.__dict__.setdefault('_fi_done', set())
+        if key not in done:
+            st._fi_done = set(done) | {key}
+            cont = self.uf('contains', V, V, B)
+            self.add_qfact(st, lambda e, s, k: z3.Implies(z3.And(k >= 0, k < a.n), cont(av, e.to_V(a.at(e, s, k)))), name='elements-are-members')
+
+    def defined_bool(self, st, name, n, body):
+        """A Bool defined as  forall k in [0, n): body(k)  — both directions are stated (instances when it is true, a
+        Skolem counter-example when it is false), so it can be used in either polarity."""
+        b = self.fresh(name, B)
+        self.add_qfact(st, lambda e, s, k: z3.Implies(z3.And(b, k >= 0, k < n), body(e, s, k)), name=name)
+        sk = self.fresh('sk_' + name, I)
+        s2 = st
+        st.assume(z3.Implies(z3.Not(b), z3.And(sk >= 0, sk < n, z3.Not(body(self, s2, sk)))))
+        return b
+
     def arr_compare(self, st, op, l, r, node):
+        if isinstance(op, (ast.In, ast.NotIn)) and isinstance(r, Arr):
+            t = self.membership(st, r, l)
+            return t if isinstance(op, ast.In) else z3.Not(t)
+        if isinstance(op, (ast.In, ast.NotIn)) and isinstance(r, DictSym):
+            t = r.has(self, st, l)
+            return t if isinstance(op, ast.In) else z3.Not(t)
+        if isinstance(l, SetV) and isinstance(r, SetV):
+            sub = lambda a, b: self.defined_bool(st, 'subset', a.arr.n, lambda e, s, k: e.membership(s, b.arr, a.arr.at(e, s, k)))
+            if isinstance(op, ast.LtE):
+                return sub(l, r)
+            if isinstance(op, ast.GtE):
+                return sub(r, l)
+            if isinstance(op, (ast.Eq, ast.NotEq)):
+                t = z3.And(sub(l, r), sub(r, l))
+                return t if isinstance(op, ast.Eq) else z3.Not(t)
+        if isinstance(op, (ast.Eq, ast.NotEq)) and isinstance(l, Arr) and isinstance(r, Arr) and not (l.np or r.np):
+            t = self.seq_equal_term(st, l, r)
+            return t if isinstance(op, ast.Eq) else z3.Not(t)
         return NotImplemented
+
+    def arr_index(self, st, a, x):
+        """tuple.index(x): the first position holding x (ValueError ends the path if absent)."""
+        w, mem = self.first_index(st, a, x)
+        st.assume(mem)
+        return E.Num(w, taint=E.t_or(a.taint, x.taint))
 
     def arr_call(self, st, name, recv, args, kw, node):
         tt = E.t_or(*[v.taint for v in ([recv] if recv is not None else []) + list(args) + list(kw.values())])
@@ -379,6 +638,38 @@ class ArrayTheory:
                 return E.Num(self.sumf(st, a0, a0.n).t, npy=a0.np, taint=tt)
             if name == 'count_len_lt' and len(args) == 2 and isinstance(a0, Arr):
                 return self.count_len(st, a0, int_term(args[1]))
+            if args and isinstance(a0, E.Tup) and name in ('first_index', 'last_index', 'all_in', 'seq_equal', 'set', 'frozenset', 'prod'):
+                a0 = self.arr_from_tup(a0)
+                args = [a0] + list(args[1:])
+            if len(args) == 2 and isinstance(args[1], E.Tup) and name in ('all_in', 'seq_equal'):
+                args = [args[0], self.arr_from_tup(args[1])]
+            if name == 'first_index' and len(args) == 2 and isinstance(a0, Arr):
+                return E.Num(self.first_index(st, a0, args[1])[0])
+            if name == 'last_index' and len(args) == 2 and isinstance(a0, Arr):
+                x_ = args[1]
+                l_ = self.uf('last_index', V, V, I)(self.arr_to_V(a0), self.to_V(x_))
+                mem = self.membership(st, a0, x_)
+                st.assume(z3.Implies(mem, z3.And(l_ >= 0, l_ < a0.n, self.val_eq(st, a0.at(self, st, l_), x_))))
+                self.add_qfact(st, lambda e, s, k: z3.Implies(z3.And(mem, k > l_, k < a0.n), z3.Not(e.val_eq(s, a0.at(e, s, k), x_))), name='last-index-maximal')
+                return E.Num(l_)
+            if name == 'all_in' and len(args) == 2 and isinstance(a0, Arr) and isinstance(args[1], Arr):
+                b_ = args[1]
+                return E.BoolV(self.defined_bool(st, 'all_in', a0.n, lambda e, s, k: e.membership(s, b_, a0.at(e, s, k))))
+            if name == 'seq_equal' and len(args) == 2 and isinstance(a0, Arr) and isinstance(args[1], Arr):
+                return E.BoolV(self.seq_equal_term(st, a0, args[1]))
+            if name in ('set', 'frozenset') and len(args) == 1 and isinstance(a0, Arr):
+                return SetV(a0)
+            if name == 'prod' and len(args) == 2 and isinstance(a0, Arr):
+                return self.prodf(st, a0, int_term(args[1]))
+            if name in ('reduce', 'functools.reduce') and len(args) == 3 and isinstance(args[1], Arr) and isinstance(args[0], E.FuncV) \
+                    and isinstance(args[0].node, ast.Lambda) and isinstance(args[2], E.Num):
+                lam = args[0].node
+                ps = [x.arg for x in lam.args.args]
+                if len(ps) == 2 and ast.unparse(lam.body) in ('%s * %s' % (ps[0], ps[1]), '%s * %s' % (ps[1], ps[0])) \
+                        and z3.is_true(z3.simplify(args[2].real() == 1)):
+                    return self.prodf(st, args[1], args[1].n)
+            if name == 'dict' and len(args) == 1 and isinstance(a0, Arr) and a0.name == 'zip' and hasattr(a0, 'zipped') and len(a0.zipped) == 2:
+                return self.zipdict(st, a0.zipped[0], a0.zipped[1])
             if name == 'zip' and args and all(isinstance(a, Arr) for a in args):
                 return self.arr_zip(st, args)
             if name == 'np.ones' and len(args) == 1 and isinstance(a0, E.Num):
@@ -390,6 +681,9 @@ class ArrayTheory:
         else:
             if isinstance(recv, DictSym) and name == 'keys' and not args:
                 return recv.keys_arr()
+            if isinstance(recv, DictSym) and name == 'values' and not args:
+                d_ = recv
+                return Arr(d_.n, lambda e, s, i: d_.get(e, E.Obj(d_.keyf(i)), s), taint=d_.taint, name='values_' + d_.name)
             if isinstance(recv, Arr):
                 if name in ('max', 'min') and not args:
                     return self.arr_max(st, recv, name)
@@ -407,14 +701,6 @@ class ArrayTheory:
         if key not in cache:
             cache[key] = self.fresh('lse', R)
         return cache[key]
-
-    def arr_index(self, st, a, x):
-        """tuple.index(x): the first position holding x (ValueError ends the path if absent)."""
-        p = self.fresh('idx', I)
-        st.assume(z3.And(p >= 0, p < a.n))
-        st.assume(self.val_eq(st, a.at(self, st, p), x))
-        self.add_qfact(st, lambda e, s, k: z3.Implies(z3.And(k >= 0, k < p), z3.Not(e.val_eq(s, a.at(e, s, k), x))), name='index-first')
-        return E.Num(p, taint=E.t_or(a.taint, x.taint))
 
     def val_eq(self, st, a, b):
         if isinstance(a, E.Num) and isinstance(b, E.Num):
@@ -436,6 +722,10 @@ class ArrayTheory:
         if isinstance(it, E.Obj) and it.g('range') is not None:
             lo, hi = it.g('range')
             it = Arr(z3.If(hi >= lo, hi - lo, 0), lambda en, s, i: E.Num(lo + i), taint=it.taint, name='range')
+        if isinstance(it, E.Tup) and self.c.get('sequences'):
+            it = self.arr_from_tup(it)
+        if isinstance(it, DictSym):
+            it = it.keys_arr()
         if not isinstance(it, Arr):
             return NotImplemented
         if self.hooks and hasattr(self.hooks, 'on_loop_bound'):
